@@ -102,7 +102,9 @@ pub fn generate(src: &mut Src, tier: Tier) -> Generated {
             continue;
         }
         let spec = if s.sequence {
-            let n = 1 + src.below(tier.pick(3, 4));
+            // 1..3/4 elements; one definition in eight is empty (the API accepts that, the parser
+            // cannot produce it): an invocation of it expands to nothing
+            let n = if src.chance(1, 8) { 0 } else { 1 + src.below(tier.pick(3, 4)) };
             let gates: Vec<Gate> = (0..n).map(|_| element(src, &sigs, s)).collect();
             parts.push(Some((s.qubits.clone(), gates.clone())));
             GateSpecification::Sequence(DefGateSequence::try_new(s.qubits.clone(), gates).expect("generated sequence elements use only the formal qubits"))
@@ -400,7 +402,7 @@ impl Property for C20Prop {
         "C20"
     }
     fn rule(&self) -> &'static str {
-        "random programs: names A..D each defined with probability 0.8, 3/4 of those as DEFGATE AS SEQUENCE with 0..2 parameters, 1..2 qubit parameters and 1..3 (quick) / 1..4 (thorough) elements that invoke A..D (60%) or RX/H/CNOT with parameter expressions over the formals, constants, pi and memory references, 5% wrong parameter count, 4% wrong qubit count, 5% DAGGER; the rest as matrix / permutation definitions; a body of 1..5 / 1..8 instructions, 65% invocations of A..D (10% wrong arity, 7% variable qubit, 8% DAGGER) among H, RX, PRAGMA, MEASURE; one definition of every other kind; all 16 filters over the four names per program. Non-trivial = some filter yields an expansion nested >= 2 deep, or an expansion under a proper-subset filter with >= 2 sequence definitions; distinct by program text."
+        "random programs: names A..D each defined with probability 0.8, 3/4 of those as DEFGATE AS SEQUENCE with 0..2 parameters, 1..2 qubit parameters and 1..3 (quick) / 1..4 (thorough) elements (one definition in eight: no element at all, built through the API) that invoke A..D (60%) or RX/H/CNOT with parameter expressions over the formals, constants, pi and memory references, 5% wrong parameter count, 4% wrong qubit count, 5% DAGGER; the rest as matrix / permutation definitions; a body of 1..5 / 1..8 instructions, 65% invocations of A..D (10% wrong arity, 7% variable qubit, 8% DAGGER) among H, RX, PRAGMA, MEASURE; one definition of every other kind; all 16 filters over the four names per program. Non-trivial = some filter yields an expansion nested >= 2 deep, or an expansion under a proper-subset filter with >= 2 sequence definitions; distinct by program text."
     }
     fn max_words(&self) -> usize {
         700
